@@ -157,7 +157,11 @@ TSend ==
             <<Line.done <=> Line.stage = "C", "C02:done-flag-inconsistent-with-stage">>,
             <<(n > 0 /\ StageRank(Line.stage) < StageRank(prev.stage)) =>
                  (prev.stage = "E" /\ Line.stage = "Q" /\ rqNow > st.rq), "C02:stage-went-backwards">>,
-            <<(known /\ Line.done) => (Line.token = t.resp /\ Line.code = t.code), "C02:final-message-differs-from-task-result">>
+            <<(known /\ Line.done) => (Line.token = t.resp /\ Line.code = t.code), "C02:final-message-differs-from-task-result">>,
+            \* "all attached clients receive the same final response": the
+            \* one recorded for the task they are attached to
+            <<(known /\ Line.done /\ Len(t.ops) >= 2) => (Line.token = t.resp /\ Line.code = t.code),
+              "C03:attached-client-got-a-different-final-response">>
           >>)
   /\ verdict' = Conclude(fails')
   /\ UNCHANGED <<S, cfg, calls, acc, requeue, route, lrnOf, sels, lrns, nsel, selOf, bgprio, gone, nonconf, stats, insync, wlast, clock>>
